@@ -18,6 +18,9 @@ Every family below is a closed, named list (the alphabet of the V-family of C02)
                  fallback = a plain letter, a blank delimiter in front of the fallback, no fallback under \\uc0, two fallback bytes
                  under \\uc2, the escape in a group of its own - applied to every character of every text, or to the second one only
   CELL_NOTE      a comment attached to a spreadsheet cell (ods office:annotation, xlsx comments part): hidden text
+  NOTE_BODY      the body of such a comment is a block sequence of its own (ODF 1.2 part 1, 14.1: office:annotation holds
+                 (text:p | text:list)*; ECMA-376 18.7.7: a comment text is a sequence of rich-text runs): paragraphs, bulleted /
+                 numbered lists (nested), and inside a paragraph spans, line breaks and tabs - every leaf of it is hidden text
   ODF_NESTED     a text box anchored inside a paragraph of a drawing page (odg / odp: draw:frame > draw:text-box inside text:p)
 """
 from __future__ import annotations
@@ -319,9 +322,110 @@ def rtf_respell(data, variant):
 
 # ====================================================================================================== cell comments
 
+# ---------------------------------------------------------------------------------------------- comment bodies
+# A comment is either a text (one plain paragraph) or a BODY: [block, ...] with
+#   block  = ["p", [inline, ...]] | ["ul", [[block, ...], ...]]         (a list of items, each a block sequence)
+#   inline = ["t", text] | ["tab"] | ["br"] | ["span", [inline, ...]]
+
+def note_tokens(note):
+    """all text leaves of a comment (text or body), in document order"""
+    if isinstance(note, str):
+        return [note]
+    out = []
+
+    def inl(xs):
+        for x in xs:
+            if x[0] == "t":
+                out.append(x[1])
+            elif x[0] == "span":
+                inl(x[1])
+
+    def blocks(bs):
+        for b in bs:
+            if b[0] == "p":
+                inl(b[1])
+            elif b[0] == "ul":
+                for it in b[1]:
+                    blocks(it)
+            else:
+                raise ValueError("comment body block %r" % (b[0],))
+    blocks(note)
+    return out
+
+
+def _ods_note_inl(xs):
+    out = []
+    for x in xs:
+        k = x[0]
+        if k == "t":
+            out.append(_h_esc(x[1]))
+        elif k == "tab":
+            out.append("<text:tab/>")
+        elif k == "br":
+            out.append("<text:line-break/>")
+        elif k == "span":
+            out.append("<text:span>%s</text:span>" % _ods_note_inl(x[1]))
+        else:
+            raise ValueError("comment body inline %r" % (k,))
+    return "".join(out)
+
+
+def ods_note_xml(note):
+    """content of an office:annotation (after dc:creator / dc:date): (text:p | text:list)*"""
+    if isinstance(note, str):
+        return "<text:p>%s</text:p>" % _h_esc(note)
+
+    def blocks(bs):
+        out = []
+        for b in bs:
+            if b[0] == "p":
+                out.append("<text:p>%s</text:p>" % _ods_note_inl(b[1]))
+            elif b[0] == "ul":
+                out.append("<text:list>%s</text:list>" % "".join("<text:list-item>%s</text:list-item>" % blocks(it) for it in b[1]))
+            else:
+                raise ValueError("comment body block %r" % (b[0],))
+        return "".join(out)
+    return blocks(note)
+
+
+def xlsx_note_xml(note):
+    """content of <text> of a comment: rich-text runs. A paragraph is a run sequence, a span a run with properties of its own,
+    paragraphs are separated by a line feed inside the text (the way Excel stores Alt+Enter); lists do not exist in a comment."""
+    if isinstance(note, str):
+        return "<r><t>%s</t></r>" % _h_esc(note)
+    runs = []          # [bold, text]
+
+    def add(bold, s):
+        if runs and runs[-1][0] == bold:
+            runs[-1][1] += s
+        else:
+            runs.append([bold, s])
+
+    def inl(xs, bold):
+        for x in xs:
+            k = x[0]
+            if k == "t":
+                add(bold, x[1])
+            elif k == "tab":
+                add(bold, "\t")
+            elif k == "br":
+                add(bold, "\n")
+            elif k == "span":
+                inl(x[1], True)
+            else:
+                raise ValueError("comment body inline %r" % (k,))
+    for i, b in enumerate(note):
+        if b[0] != "p":
+            raise NotImplementedError("a spreadsheetml comment holds runs of text only")
+        if i:
+            add(False, "\n")
+        inl(b[1], False)
+    return "".join('<r>%s<t xml:space="preserve">%s</t></r>' % ("<rPr><b/></rPr>" if bold else "", _h_esc(t)) for bold, t in runs)
+
+
 def split_cell_notes(doc):
-    """sheet document whose string cells may be ["s", text, {"note": text}] or ["n", note] (an empty cell with a comment)
-    -> (plain sheet document, [(sheet index, row, col, note text), ...])"""
+    """sheet document whose string cells may be ["s", text, {"note": note}] or ["n", note] (an empty cell with a comment); a note is a
+    text or a body (see note_tokens)  -> (plain sheet document, [(sheet index, row, col, note), ...])"""
     notes = []
     sheets = []
     for si, sh in enumerate(doc[2]):
@@ -390,7 +494,7 @@ def ods_with_notes(data, notes):
                 tok = want.get((si, r, c))
                 if tok is not None:
                     ann = ('<office:annotation><dc:creator>verif</dc:creator><dc:date>2020-01-01T00:00:00</dc:date>'
-                           '<text:p>%s</text:p></office:annotation>' % tok)
+                           '%s</office:annotation>' % ods_note_xml(tok))
                     out.append(xml[pos:m.start()])
                     if g.endswith("/>"):
                         out.append(g[:-2] + ">" + ann + "</table:table-cell>")
@@ -433,7 +537,7 @@ def xlsx_with_notes(data, notes):
         x = ['<?xml version="1.0" encoding="UTF-8" standalone="yes"?>',
              '<comments xmlns="http://schemas.openxmlformats.org/spreadsheetml/2006/main"><authors><author>verif</author></authors><commentList>']
         for r, c, tok in lst:
-            x.append('<comment ref="%s" authorId="0"><text><r><t>%s</t></r></text></comment>' % (_a1(r, c), tok))
+            x.append('<comment ref="%s" authorId="0"><text>%s</text></comment>' % (_a1(r, c), xlsx_note_xml(tok)))
         x.append("</commentList></comments>")
         add["xl/comments%d.xml" % n] = "".join(x).encode("utf-8")
         rels = "xl/worksheets/_rels/sheet%d.xml.rels" % n
@@ -454,6 +558,40 @@ def xlsx_with_notes(data, notes):
             return s.replace("</Relationships>", '<Relationship Id="rIdC1" Type="%s" Target="../comments%s.xml"/></Relationships>' % (
                 rt, m.group(1))).encode("utf-8")
         return None
+    return _rezip(data, edit)
+
+
+def odt_hidden_bodies(doc, images):
+    """odt package in which the hidden text of every ["cref", first leaf, body] / ["del", first leaf, body] inline is written as that
+    body: the content of office:annotation (ODF 1.2 part 1, 14.1: (text:p | text:list)*) / of text:deletion (5.5.4: paragraph content)"""
+    from verif.gen import odf
+    bodies = []
+
+    def strip(x):
+        if isinstance(x, list):
+            if len(x) == 3 and x[0] in ("cref", "del") and isinstance(x[2], list):
+                if note_tokens(x[2])[0] != x[1]:
+                    raise AssertionError("hidden body: first leaf differs from the label")
+                bodies.append((x[0], x[1], x[2]))
+                return [x[0], x[1]]
+            return [strip(y) for y in x]
+        return x
+    doc2 = ["doc", doc[1], strip(doc[2])]
+    data = odf.odt(doc2, images)
+    if not bodies:
+        return data
+
+    def edit(name, b):
+        if name != "content.xml":
+            return None
+        s = b.decode("utf-8")
+        for kind, tok, body in bodies:
+            close = "</office:annotation>" if kind == "cref" else "</text:deletion>"
+            key = '<text:p text:style-name="Standard">%s</text:p>%s' % (tok, close)
+            if s.count(key) != 1:
+                raise AssertionError("hidden body of %s occurs %d times" % (tok, s.count(key)))
+            s = s.replace(key, ods_note_xml(body) + close)
+        return s.encode("utf-8")
     return _rezip(data, edit)
 
 
